@@ -831,6 +831,420 @@ def builtinCall (b : Builtin) (ts : List TId) (d1 : Nat) : M Value :=
   | .makeArray, [t0, t1] => std_makeArray rec t0 t1 d1
   | _, _ => throw (.internal "builtin arity")
 
+/-! ### More builtins whose evaluation interacts with laziness, frames or callbacks -/
+
+/-- `check_thunk_args_and_execute_call` of a user function on already-built argument thunks, up to
+    (not including) the `Call` trace item and the evaluation of the body: arity errors, defaults,
+    the parameter environment (`execute_normal_call`).  Result: body and its environment. -/
+def std_bindCall (f : FId) (args : List TId) : M (Expr × EId) := do
+  let fn ← getFunc f
+  let argThunks ← bindThunkArgs fn args
+  let inner ← newEnv (some fn.env) ((fn.params.map Prod.fst).zip argThunks)
+  pure (fn.body, inner)
+
+/-- `str::find(needle).is_some()` -/
+def std_isInfix (needle hay : List Char) : Bool :=
+  (List.range (hay.length + 1)).any (fun i => needle.isPrefixOf (hay.drop i))
+
+/-- `try_to_i32_exact` -/
+def std_i32Exact (f : Float) : Option Int :=
+  if f.isFinite && f.floor == f && f ≥ -2147483648.0 && f ≤ 2147483647.0 then some f.toInt64.toInt else none
+
+/-- `std.filter`: `do_std_filter` prepares the application of the function to EVERY element (arity
+    check, `Call` trace item) before the first one runs; the frames are popped one by one, so the
+    element of index `i` is tested with `n - i` of them still there. -/
+def std_filter (t0 t1 : TId) (d1 : Nat) : M Value := do
+  let fv ← rec (.force t0 d1)
+  let av ← rec (.force t1 d1)
+  let .func f := fv | throw (.rt "InvalidStdFuncArgType" s!"filter/0/{typeName fv}")
+  let .arr items := av | throw (.rt "InvalidStdFuncArgType" s!"filter/1/{typeName av}")
+  let mut calls : List (Expr × EId) := []
+  for it in items.reverse do
+    calls := (← std_bindCall f [it]) :: calls
+  let n := items.length
+  checkDepth cfg (d1 + n)
+  let mut out : List TId := []
+  for ((it, (body, env)), i) in (items.zip calls).zipIdx do
+    match ← rec (.eval body env true (d1 + n - i)) with
+    | .bool true => out := out ++ [it]
+    | .bool false => pure ()
+    | v => throw (.rt "Other" s!"filter function must return a boolean, got {typeStr v}")
+  pure (.arr out)
+
+/-- `std.foldl`: one application (and one frame) at a time; the accumulator is a finished thunk -/
+def std_foldl (t0 t1 t2 : TId) (d1 : Nat) : M Value := do
+  let fv ← rec (.force t0 d1)
+  let av ← rec (.force t1 d1)
+  let .func f := fv | throw (.rt "InvalidStdFuncArgType" s!"foldl/0/{typeName fv}")
+  let .arr items := av | throw (.rt "InvalidStdFuncArgType" s!"foldl/1/{typeName av}")
+  match items with
+  | [] => rec (.force t2 d1)
+  | it0 :: rest =>
+    let (body, env) ← std_bindCall f [t2, it0]
+    checkDepth cfg (d1 + 1)
+    let mut acc ← rec (.eval body env true (d1 + 1))
+    for it in rest do
+      let a ← allocThunk (.done acc)
+      let (body, env) ← std_bindCall f [a, it]
+      checkDepth cfg (d1 + 1)
+      acc ← rec (.eval body env true (d1 + 1))
+    pure acc
+
+/-- `std.foldr` -/
+def std_foldr (t0 t1 t2 : TId) (d1 : Nat) : M Value := do
+  let fv ← rec (.force t0 d1)
+  let av ← rec (.force t1 d1)
+  let .func f := fv | throw (.rt "InvalidStdFuncArgType" s!"foldr/0/{typeName fv}")
+  let .arr items := av | throw (.rt "InvalidStdFuncArgType" s!"foldr/1/{typeName av}")
+  match items.reverse with
+  | [] => rec (.force t2 d1)
+  | last :: rest =>
+    let (body, env) ← std_bindCall f [last, t2]
+    checkDepth cfg (d1 + 1)
+    let mut acc ← rec (.eval body env true (d1 + 1))
+    for it in rest do
+      let a ← allocThunk (.done acc)
+      let (body, env) ← std_bindCall f [it, a]
+      checkDepth cfg (d1 + 1)
+      acc ← rec (.eval body env true (d1 + 1))
+    pure acc
+
+/-- `std.flatMap`: all applications are prepared up front, as in `std.filter` -/
+def std_flatMap (t0 t1 : TId) (d1 : Nat) : M Value := do
+  let fv ← rec (.force t0 d1)
+  let av ← rec (.force t1 d1)
+  let .func f := fv | throw (.rt "InvalidStdFuncArgType" s!"flatMap/0/{typeName fv}")
+  match av with
+  | .arr items =>
+    let mut calls : List (Expr × EId) := []
+    for it in items.reverse do
+      calls := (← std_bindCall f [it]) :: calls
+    let n := items.length
+    checkDepth cfg (d1 + n)
+    let mut out : List TId := []
+    for ((body, env), i) in calls.zipIdx do
+      match ← rec (.eval body env true (d1 + n - i)) with
+      | .arr sub => out := out ++ sub
+      | v => throw (.rt "Other" s!"function must return an array, got {typeStr v}")
+    pure (.arr out)
+  | .str s =>
+    let cs := s.toList
+    let mut calls : List (Expr × EId) := []
+    for c in cs.reverse do
+      let a ← allocThunk (.done (.str (String.singleton c)))
+      calls := (← std_bindCall f [a]) :: calls
+    let n := cs.length
+    checkDepth cfg (d1 + n)
+    let mut out : String := ""
+    for ((body, env), i) in calls.zipIdx do
+      match ← rec (.eval body env true (d1 + n - i)) with
+      | .null => pure ()
+      | .str part => out := out ++ part
+      | v => throw (.rt "Other" s!"function must return a string, got {typeStr v}")
+    pure (.str out)
+  | v => throw (.rt "InvalidStdFuncArgType" s!"flatMap/1/{typeName v}")
+
+/-- `std.mapWithIndex` -/
+def std_mapWithIndex (t0 t1 : TId) (d1 : Nat) : M Value := do
+  let fv ← rec (.force t0 d1)
+  let av ← rec (.force t1 d1)
+  let .func f := fv | throw (.rt "InvalidStdFuncArgType" s!"mapWithIndex/0/{typeName fv}")
+  match av with
+  | .arr items =>
+    let mut out : List TId := []
+    for (it, i) in items.zipIdx do
+      let ix ← allocThunk (.done (.num (Float.ofNat i)))
+      out := out ++ [← allocThunk (.pending (.call f [ix, it]))]
+    pure (.arr out)
+  | .str s =>
+    let mut out : List TId := []
+    for (c, i) in s.toList.zipIdx do
+      let ix ← allocThunk (.done (.num (Float.ofNat i)))
+      let a ← allocThunk (.done (.str (String.singleton c)))
+      out := out ++ [← allocThunk (.pending (.call f [ix, a]))]
+    pure (.arr out)
+  | v => throw (.rt "InvalidStdFuncArgType" s!"mapWithIndex/1/{typeName v}")
+
+/-- `std.mapWithKey`: a one-layer object of deferred applications (its asserts count as checked);
+    the asserts of the source object are checked afterwards -/
+def std_mapWithKey (t0 t1 : TId) (d1 : Nat) : M Value := do
+  let fv ← rec (.force t0 d1)
+  let ov ← rec (.force t1 d1)
+  let .func f := fv | throw (.rt "InvalidStdFuncArgType" s!"mapWithKey/0/{typeName fv}")
+  let .obj o := ov | throw (.rt "InvalidStdFuncArgType" s!"mapWithKey/1/{typeName ov}")
+  let mut fields : List Field := []
+  for name in visibleFields (← getObj o) do
+    let some ft ← fieldThunk o 0 name | throw (.internal "visible field without thunk")
+    let k ← allocThunk (.done (.str name))
+    let t ← allocThunk (.pending (.call f [k, ft]))
+    fields := fields ++ [{ name, vis := .default, baseEnv := none, expr := none, thunk := some t }]
+  let r ← allocObj { layers := [{ isTop := false, locals := [], baseEnv := none, env := none,
+                                  fields := fields, asserts := [] }], assertsChecked := true }
+  let _ ← rec (.asserts o d1)
+  pure (.obj r)
+
+/-- `std.filterMap`: the filter function is applied as in `std.filter`; the map function is deferred -/
+def std_filterMap (t0 t1 t2 : TId) (d1 : Nat) : M Value := do
+  let ffv ← rec (.force t0 d1)
+  let mfv ← rec (.force t1 d1)
+  let av ← rec (.force t2 d1)
+  let .func ff := ffv | throw (.rt "InvalidStdFuncArgType" s!"filterMap/0/{typeName ffv}")
+  let .func mf := mfv | throw (.rt "InvalidStdFuncArgType" s!"filterMap/1/{typeName mfv}")
+  let .arr items := av | throw (.rt "InvalidStdFuncArgType" s!"filterMap/2/{typeName av}")
+  let mut calls : List (Expr × EId) := []
+  for it in items.reverse do
+    calls := (← std_bindCall ff [it]) :: calls
+  let n := items.length
+  checkDepth cfg (d1 + n)
+  let mut out : List TId := []
+  for ((it, (body, env)), i) in (items.zip calls).zipIdx do
+    match ← rec (.eval body env true (d1 + n - i)) with
+    | .bool true => out := out ++ [← allocThunk (.pending (.call mf [it]))]
+    | .bool false => pure ()
+    | v => throw (.rt "Other" s!"filter function must return a boolean, got {typeStr v}")
+  pure (.arr out)
+
+/-- `std.join`: the elements are forced one by one, without trace items -/
+def std_join (t0 t1 : TId) (d1 : Nat) : M Value := do
+  let sv ← rec (.force t0 d1)
+  let av ← rec (.force t1 d1)
+  let .arr items := av | throw (.rt "InvalidStdFuncArgType" s!"join/1/{typeName av}")
+  match sv with
+  | .str sep =>
+    let mut out : String := ""
+    let mut first := true
+    for it in items do
+      match ← rec (.force it d1) with
+      | .null => pure ()
+      | .str part =>
+        out := if first then part else out ++ sep ++ part
+        first := false
+      | v => throw (.rt "Other" s!"array item must null or string, got {typeStr v}")
+    pure (.str out)
+  | .arr sep =>
+    let mut out : List TId := []
+    let mut first := true
+    for it in items do
+      match ← rec (.force it d1) with
+      | .null => pure ()
+      | .arr part =>
+        out := if first then part else out ++ sep ++ part
+        first := false
+      | v => throw (.rt "Other" s!"array item must null or array, got {typeStr v}")
+    pure (.arr out)
+  | v => throw (.rt "InvalidStdFuncArgType" s!"join/0/{typeName v}")
+
+/-- `std.range` -/
+def std_range (t0 t1 : TId) (d1 : Nat) : M Value := do
+  let fv ← rec (.force t0 d1)
+  let tv ← rec (.force t1 d1)
+  let .num a := fv | throw (.rt "InvalidStdFuncArgType" s!"range/0/{typeName fv}")
+  let .num b := tv | throw (.rt "InvalidStdFuncArgType" s!"range/1/{typeName tv}")
+  let some lo := std_i32Exact a | throw (.rt "Other" "invalid `from` value")
+  let some hi := std_i32Exact b | throw (.rt "Other" "invalid `to` value")
+  let k := (hi - lo + 1).toNat
+  if k > 4096 then throw (.unsupported "large range")
+  let mut out : List TId := []
+  for i in List.range k do
+    out := out ++ [← allocThunk (.done (.num (intToFloat (lo + Int.ofNat i))))]
+  pure (.arr out)
+
+/-- `std.member`: the needle is forced only when the first argument is a string or a non-empty array -/
+def std_member (t0 t1 : TId) (d1 : Nat) : M Value := do
+  match ← rec (.force t0 d1) with
+  | .str s =>
+    let nv ← rec (.force t1 d1)
+    let .str needle := nv | throw (.rt "InvalidStdFuncArgType" s!"member/1/{typeName nv}")
+    pure (.bool (std_isInfix needle.toList s.toList))
+  | .arr items =>
+    if items.isEmpty then return .bool false
+    let x ← rec (.force t1 d1)
+    for it in items do
+      let iv ← rec (.force it d1)
+      match ← rec (.equals x iv d1) with
+      | .bool true => return .bool true
+      | _ => pure ()
+    pure (.bool false)
+  | v => throw (.rt "InvalidStdFuncArgType" s!"member/0/{typeName v}")
+
+/-- `std.count` -/
+def std_count (t0 t1 : TId) (d1 : Nat) : M Value := do
+  let av ← rec (.force t0 d1)
+  let .arr items := av | throw (.rt "InvalidStdFuncArgType" s!"count/0/{typeName av}")
+  if items.isEmpty then return .num 0.0
+  let x ← rec (.force t1 d1)
+  let mut k : Nat := 0
+  for it in items do
+    let iv ← rec (.force it d1)
+    match ← rec (.equals x iv d1) with
+    | .bool true => k := k + 1
+    | _ => pure ()
+  pure (.num (Float.ofNat k))
+
+/-- `std.all` -/
+def std_all (t : TId) (d1 : Nat) : M Value := do
+  let av ← rec (.force t d1)
+  let .arr items := av | throw (.rt "InvalidStdFuncArgType" s!"all/0/{typeName av}")
+  for (it, i) in items.zipIdx do
+    match ← rec (.force it d1) with
+    | .bool true => pure ()
+    | .bool false => return .bool false
+    | v => throw (.rt "Other" s!"array item {i} must be a boolean, got {typeStr v}")
+  pure (.bool true)
+
+/-- `std.any` -/
+def std_any (t : TId) (d1 : Nat) : M Value := do
+  let av ← rec (.force t d1)
+  let .arr items := av | throw (.rt "InvalidStdFuncArgType" s!"any/0/{typeName av}")
+  for (it, i) in items.zipIdx do
+    match ← rec (.force it d1) with
+    | .bool true => return .bool true
+    | .bool false => pure ()
+    | v => throw (.rt "Other" s!"array item {i} must be a boolean, got {typeStr v}")
+  pure (.bool false)
+
+/-- `std.equals` -/
+def std_equals (t0 t1 : TId) (d1 : Nat) : M Value := do
+  let av ← rec (.force t0 d1)
+  let bv ← rec (.force t1 d1)
+  rec (.equals av bv d1)
+
+/-- `std.__compare` -/
+def std_compare (t0 t1 : TId) (d1 : Nat) : M Value := do
+  let av ← rec (.force t0 d1)
+  let bv ← rec (.force t1 d1)
+  rec (.compare av bv d1)
+
+/-- `std.primitiveEquals` -/
+def std_primitiveEquals (t0 t1 : TId) (d1 : Nat) : M Value := do
+  let av ← rec (.force t0 d1)
+  let bv ← rec (.force t1 d1)
+  match av, bv with
+  | .null, .null => pure (.bool true)
+  | .bool x, .bool y => pure (.bool (x == y))
+  | .num x, .num y => pure (.bool (x == y))
+  | .str x, .str y => pure (.bool (x == y))
+  | .arr _, .arr _ => throw (.rt "PrimitiveEqualsNonPrimitive" "Array")
+  | .obj _, .obj _ => throw (.rt "PrimitiveEqualsNonPrimitive" "Object")
+  | .func _, .func _ => throw (.rt "CompareFunctions" "")
+  | _, _ => pure (.bool false)
+
+/-- `std.assertEqual`: on failure both values are manifested (left first) for the message -/
+def std_assertEqual (t0 t1 : TId) (d1 : Nat) : M Value := do
+  let av ← rec (.force t0 d1)
+  let bv ← rec (.force t1 d1)
+  match ← rec (.equals av bv d1) with
+  | .bool true => pure (.bool true)
+  | _ =>
+    let ls ← recStr rec (.manifest av d1 false)
+    let rs ← recStr rec (.manifest bv d1 false)
+    throw (.rt "AssertEqualFailed" (ls ++ "/" ++ rs))
+
+/-- `std.toString` -/
+def std_toString (t : TId) (d1 : Nat) : M Value := do
+  let v ← rec (.force t d1)
+  pure (.str (← coerceToString rec v d1))
+
+/-- the keys of `std.sort` / `std.set`: every application of `keyF` is prepared up front (arity check, `Call`
+    trace item) as in `std.filter`; `none` is the default `keyF`, the identity (`FuncKind::Identity`: the element
+    itself is forced under its `Call` trace item) -/
+def std_sortKeys (kf : Option FId) (items : List TId) (d1 : Nat) : M (List Value) := do
+  let n := items.length
+  match kf with
+  | none =>
+    checkDepth cfg (d1 + n)
+    let mut keys : List Value := []
+    for (it, i) in items.zipIdx do
+      keys := keys ++ [← rec (.force it (d1 + n - i))]
+    pure keys
+  | some f =>
+    let mut calls : List (Expr × EId) := []
+    for it in items.reverse do
+      calls := (← std_bindCall f [it]) :: calls
+    checkDepth cfg (d1 + n)
+    let mut keys : List Value := []
+    for ((body, env), i) in calls.zipIdx do
+      keys := keys ++ [← rec (.eval body env true (d1 + n - i))]
+    pure keys
+
+/-- `StdSortQuickSort1/2` on element indices (ranges of at most 30 elements): every other element is compared
+    with the first one, `<` go left (in order), the others right, then the left part and the right part -/
+def std_qsort (keys : List Value) (d1 : Nat) : Nat → List Nat → M (List Nat)
+  | 0, xs => pure xs
+  | _ + 1, [] => pure []
+  | _ + 1, [x] => pure [x]
+  | fuel + 1, pivot :: rest => do
+    let some kp := keys[pivot]? | throw (.internal "sort key not set")
+    let mut lt : List Nat := []
+    let mut ge : List Nat := []
+    for it in rest do
+      let some ki := keys[it]? | throw (.internal "sort key not set")
+      match ← rec (.compare ki kp d1) with
+      | .num c => if c < 0.0 then lt := lt ++ [it] else ge := ge ++ [it]
+      | _ => throw (.internal "compare did not return a number")
+    let l ← std_qsort keys d1 fuel lt
+    let g ← std_qsort keys d1 fuel ge
+    pure (l ++ pivot :: g)
+
+/-- `std.sort` (`uniq = false`) and `std.set` (`uniq = true`: after sorting, an element is kept when its key differs
+    from the key of its predecessor in the sorted order); `t1 = none`: `keyF` not given -/
+def std_sortSet (uniq : Bool) (t0 : TId) (t1 : Option TId) (d1 : Nat) : M Value := do
+  let name := if uniq then "set" else "sort"
+  let av ← rec (.force t0 d1)
+  let kv ← match t1 with
+    | some t => do pure (some (← rec (.force t d1)))
+    | none => pure none
+  let .arr items := av | throw (.rt "InvalidStdFuncArgType" s!"{name}/0/{typeName av}")
+  let kf ← match kv with
+    | none => pure none
+    | some (.func f) => pure (some f)
+    | some v => throw (.rt "InvalidStdFuncArgType" s!"{name}/1/{typeName v}")
+  if items.length ≤ 1 then return av
+  if items.length > 30 then throw (.unsupported "merge sort")
+  let keys ← std_sortKeys cfg rec kf items d1
+  let order ← std_qsort rec keys d1 items.length (List.range items.length)
+  let mut out : List TId := []
+  let mut prev : Option Value := none
+  for i in order do
+    let some t := items[i]? | throw (.internal "sorted index out of range")
+    let some k := keys[i]? | throw (.internal "sort key not set")
+    let keep ← match (if uniq then prev else none) with
+      | some pk => do
+        match ← rec (.equals pk k d1) with
+        | .bool true => pure false
+        | _ => pure true
+      | none => pure true
+    if keep then out := out ++ [t]
+    prev := some k
+  pure (.arr out)
+
+/-- the builtins added after `std.makeArray` (they need the frame limit); the others as before -/
+def builtinCall2 (b : Builtin) (ts : List TId) (d1 : Nat) : M Value :=
+  match b, ts with
+  | .filter, [t0, t1] => std_filter cfg rec t0 t1 d1
+  | .foldl, [t0, t1, t2] => std_foldl cfg rec t0 t1 t2 d1
+  | .foldr, [t0, t1, t2] => std_foldr cfg rec t0 t1 t2 d1
+  | .flatMap, [t0, t1] => std_flatMap cfg rec t0 t1 d1
+  | .mapWithIndex, [t0, t1] => std_mapWithIndex rec t0 t1 d1
+  | .mapWithKey, [t0, t1] => std_mapWithKey rec t0 t1 d1
+  | .filterMap, [t0, t1, t2] => std_filterMap cfg rec t0 t1 t2 d1
+  | .join, [t0, t1] => std_join rec t0 t1 d1
+  | .range, [t0, t1] => std_range rec t0 t1 d1
+  | .member, [t0, t1] => std_member rec t0 t1 d1
+  | .count, [t0, t1] => std_count rec t0 t1 d1
+  | .all, [t] => std_all rec t d1
+  | .any, [t] => std_any rec t d1
+  | .equals, [t0, t1] => std_equals rec t0 t1 d1
+  | .compare, [t0, t1] => std_compare rec t0 t1 d1
+  | .primitiveEquals, [t0, t1] => std_primitiveEquals rec t0 t1 d1
+  | .assertEqual, [t0, t1] => std_assertEqual rec t0 t1 d1
+  | .toString, [t] => std_toString rec t d1
+  | .sort, [t0] => std_sortSet cfg rec false t0 none d1
+  | .sort, [t0, t1] => std_sortSet cfg rec false t0 (some t1) d1
+  | .set, [t0] => std_sortSet cfg rec true t0 none d1
+  | .set, [t0, t1] => std_sortSet cfg rec true t0 (some t1) d1
+  | b, ts => builtinCall rec b ts d1
+
 /-- the computation of a pending thunk (`State::DoThunk` on `ThunkState::Pending`) -/
 def thunkBody (p : Pending) (d : Nat) : M Value :=
   match p with
@@ -1243,7 +1657,7 @@ def step : Task → M Value
         ts := ts ++ [← newThunk ae env]
       checkDepth cfg (d + 1)
       let d1 := d + 1
-      builtinCall rec b ts d1
+      builtinCall2 cfg rec b ts d1
 
 end
 
